@@ -30,6 +30,7 @@ INJECT = {
     "packet/src/rd.rs": ["p_rd"],
     "packet/src/mpls.rs": ["p_mpls"],
     "packet/src/rtc.rs": ["p_rtc"],
+    "packet/src/labeled.rs": ["p_labeled"],
     "packet/src/bmp.rs": ["p_bmp"],
     "packet/src/mrt.rs": ["p_mrt"],
     "table/src/lib.rs": ["t_lib"],
